@@ -6,10 +6,15 @@
 package main
 
 import (
+	"bytes"
 	"encoding/hex"
 	"errors"
 	"fmt"
+	"io"
 	"net"
+	"os"
+	"os/exec"
+	"path/filepath"
 	"sort"
 	"strconv"
 	"strings"
@@ -32,6 +37,7 @@ type caseSpec struct {
 	cid0    int32
 	closeAt int // Close() is called by a racing goroutine after this many writes (-1: never)
 	script  []string
+	rep     int // replay only: how often the case is re-run (default 40)
 }
 
 func (c caseSpec) params() string {
@@ -69,6 +75,8 @@ func parseCase(line string) (caseSpec, bool) {
 			c.seed, _ = strconv.ParseUint(v, 10, 64)
 		case "closeAt":
 			c.closeAt = hlib.Atoi(v)
+		case "rep":
+			c.rep = hlib.Atoi(v)
 		case "script":
 			if v != "" {
 				c.script = strings.Split(v, ",")
@@ -95,6 +103,10 @@ type callRes struct {
 	tok    int    // token found in the response
 	serial int    // serial found in the response
 	errStr string
+	// responses with raw byte fields: the fields as they were when the call returned (copied), and a reader of
+	// the fields of the response object the caller keeps holding while other responses are read
+	atReturn [][]byte
+	held     func() [][]byte
 }
 
 const (
@@ -102,7 +114,34 @@ const (
 	kCoord
 	kLpr
 	kProd
+	kFetch
+	kJoin
+	kSync
+	kDesc
 )
+
+// parseMarker reads token and serial from a marker byte field "M|<token>|<serial>|…".
+func parseMarker(m []byte) (tok, serial int) {
+	tok, serial = -2, -1
+	p := strings.SplitN(string(m), "|", 4)
+	if len(p) >= 3 && p[0] == "M" {
+		if a, err := strconv.Atoi(p[1]); err == nil {
+			tok = a
+		}
+		if a, err := strconv.Atoi(p[2]); err == nil {
+			serial = a
+		}
+	}
+	return
+}
+
+func cloneAll(bs [][]byte) [][]byte {
+	out := make([][]byte, len(bs))
+	for i, b := range bs {
+		out[i] = append([]byte{}, b...)
+	}
+	return out
+}
 
 func classify(err error, kind int) string {
 	var ne net.Error
@@ -126,7 +165,12 @@ func classify(err error, kind int) string {
 		// header tag byte >= 0x80 (connection fault) or a body cut short (call-level): the script says which
 		return "insuff"
 	}
-	return "io"
+	var oe *net.OpError
+	if errors.Is(err, io.EOF) || errors.Is(err, io.ErrUnexpectedEOF) || errors.Is(err, io.ErrClosedPipe) ||
+		errors.Is(err, net.ErrClosed) || errors.As(err, &oe) {
+		return "io"
+	}
+	return "other" // an error the connection code of the pinned tree cannot produce
 }
 
 func portOf(addr string) int {
@@ -171,6 +215,54 @@ func doCall(b *sarama.Broker, kind, token int) (r callRes) {
 			r.tok, r.serial = int(resp.ThrottleTimeMs), int(resp.ErrorCode)
 			r.class = "ok"
 		}
+	case kFetch:
+		req := &sarama.FetchRequest{MaxWaitTime: int32(token), MinBytes: 1}
+		req.AddBlock("t", 0, int64(token), 1<<20)
+		var resp *sarama.FetchResponse
+		resp, err = b.Fetch(req)
+		if err == nil {
+			r.class = "ok"
+			r.held = func() [][]byte {
+				blk := resp.GetBlock("t", 0)
+				if blk == nil || len(blk.RecordsSet) != 1 || blk.RecordsSet[0].MsgSet == nil || len(blk.RecordsSet[0].MsgSet.Messages) != 1 {
+					return nil
+				}
+				m := blk.RecordsSet[0].MsgSet.Messages[0].Msg
+				return [][]byte{m.Key, m.Value}
+			}
+		}
+	case kJoin:
+		var resp *sarama.JoinGroupResponse
+		resp, err = b.JoinGroup(&sarama.JoinGroupRequest{GroupId: "g", SessionTimeout: int32(token), MemberId: "m", ProtocolType: "c"})
+		if err == nil {
+			r.class = "ok"
+			r.held = func() [][]byte {
+				if m, ok := resp.Members["m"]; ok {
+					return [][]byte{m}
+				}
+				return nil
+			}
+		}
+	case kSync:
+		var resp *sarama.SyncGroupResponse
+		resp, err = b.SyncGroup(&sarama.SyncGroupRequest{GroupId: "g", GenerationId: int32(token), MemberId: "m"})
+		if err == nil {
+			r.class = "ok"
+			r.held = func() [][]byte { return [][]byte{resp.MemberAssignment} }
+		}
+	case kDesc:
+		var resp *sarama.DescribeGroupsResponse
+		resp, err = b.DescribeGroups(&sarama.DescribeGroupsRequest{Groups: []string{"d" + strconv.Itoa(token)}})
+		if err == nil {
+			r.class = "ok"
+			r.held = func() [][]byte {
+				if len(resp.Groups) != 1 || resp.Groups[0].Members["m"] == nil {
+					return nil
+				}
+				d := resp.Groups[0].Members["m"]
+				return [][]byte{d.MemberMetadata, d.MemberAssignment}
+			}
+		}
 	case kProd:
 		req := &sarama.ProduceRequest{RequiredAcks: sarama.NoResponse, Timeout: int32(token)}
 		req.AddMessage("t", 0, &sarama.Message{Value: []byte("v")})
@@ -182,6 +274,12 @@ func doCall(b *sarama.Broker, kind, token int) (r callRes) {
 	if err != nil {
 		r.class = classify(err, kind)
 		r.errStr = err.Error()
+	}
+	if r.held != nil {
+		r.atReturn = cloneAll(r.held())
+		if len(r.atReturn) > 0 {
+			r.tok, r.serial = parseMarker(r.atReturn[0])
+		}
 	}
 	return r
 }
@@ -272,7 +370,7 @@ func runCase(c caseSpec) caseResult {
 		return res
 	}
 
-	srv := &server{lg: lg, io: sio, maxResp: maxResp, maxOpen: c.M, callers: c.callers, rng: rng.Fork(),
+	srv := &server{lg: lg, io: sio, maxResp: maxResp, maxOpen: c.M, callers: c.callers, rtMs: c.rtMs, rng: rng.Fork(),
 		stopped: make(chan struct{})}
 	faultFree := true
 	bodyFaults := false
@@ -296,17 +394,25 @@ func runCase(c caseSpec) caseResult {
 		}
 	}
 	for i := range kinds {
-		switch x := rng.Intn(20); {
+		switch x := rng.Intn(40); {
 		case onlyMeta:
 			kinds[i] = kMeta
 		case x < 8:
 			kinds[i] = kMeta
-		case x < 13:
+		case x < 12:
 			kinds[i] = kCoord
-		case x < 18:
+		case x < 17:
 			kinds[i] = kLpr
-		default:
+		case x < 20:
 			kinds[i] = kProd
+		case x < 27:
+			kinds[i] = kFetch
+		case x < 32:
+			kinds[i] = kSync
+		case x < 36:
+			kinds[i] = kJoin
+		default:
+			kinds[i] = kDesc
 		}
 	}
 	pauses := make([]int, total)
@@ -345,6 +451,9 @@ func runCase(c caseSpec) caseResult {
 					time.Sleep(time.Duration(pauses[i]) * time.Microsecond)
 				}
 				r := doCall(b, kinds[i], i)
+				if r.class == "ok" && r.held != nil && len(r.atReturn) == 0 && bodyFaults {
+					r.class = "decodefail" // a cut body that the decoder accepts as a partial trailing message
+				}
 				if r.class == "insuff" && !bodyFaults {
 					r.class = "tag" // no body of this case can be cut short: it is the header's tag byte
 				}
@@ -410,6 +519,13 @@ func runCase(c caseSpec) caseResult {
 			}
 		}
 		res.fails = append(res.fails, ioFail{"c14-call-hang", fmt.Sprintf("calls %s did not return within %v", strings.Join(h, ","), bound)})
+		cn := make(chan struct{})
+		go func() { _, _ = b.Connected(); _ = b.Close(); close(cn) }()
+		select {
+		case <-cn:
+		case <-time.After(2 * time.Second):
+			res.fails = append(res.fails, ioFail{"c14-close-hang", "Connected()/Close() do not return either while calls hang"})
+		}
 		sio.shutdown()
 		select {
 		case <-allDone:
@@ -421,6 +537,16 @@ func runCase(c caseSpec) caseResult {
 			case <-closerDone:
 			case <-time.After(bound):
 				res.fails = append(res.fails, ioFail{"c14-close-hang", "Close() racing with calls did not return"})
+				hung = true
+			}
+		}
+		if !hung {
+			cn := make(chan struct{})
+			go func() { _, _ = b.Connected(); close(cn) }()
+			select {
+			case <-cn:
+			case <-time.After(bound):
+				res.fails = append(res.fails, ioFail{"c14-connected-hang", "Connected() did not return after all calls had returned"})
 				hung = true
 			}
 		}
@@ -486,9 +612,18 @@ func runCase(c caseSpec) caseResult {
 			if f.token >= 0 && (f.token != i || r.tok != i) {
 				res.fails = append(res.fails, ioFail{"c14-foreign-response", fmt.Sprintf("call %d received the response made for call %d (frame #%d)", i, r.tok, r.serial)})
 			}
+			if len(f.marks) > 0 && f.token >= 0 {
+				if !sameBytes(r.atReturn, f.marks) {
+					res.fails = append(res.fails, ioFail{"c14-response-bytes-differ", fmt.Sprintf("call %d: byte fields of the returned response %q, the server sent %q (frame #%d)", i, show(r.atReturn), show(f.marks), r.serial)})
+				} else if now := r.held(); !sameBytes(now, f.marks) {
+					res.fails = append(res.fails, ioFail{"c14-held-response-changed", fmt.Sprintf("call %d: the response was right when the call returned, but after other responses were read on the connection its byte fields are %q instead of %q (frame #%d)", i, show(now), show(f.marks), r.serial)})
+				}
+			}
 			if firstFault >= 0 && w.idx > firstFault {
 				res.fails = append(res.fails, ioFail{"c14-delivered-after-fault", fmt.Sprintf("call %d (wire index %d) got a response although the request with wire index %d failed with a connection fault", i, w.idx, firstFault)})
 			}
+		case "other":
+			res.fails = append(res.fails, ioFail{"c14-unexpected-error-kind", fmt.Sprintf("call %d returned %q, which no path of the connection code produces", i, r.errStr)})
 		case "panic":
 			res.fails = append(res.fails, ioFail{"panic", fmt.Sprintf("call %d panicked: %s", i, r.errStr)})
 		case "insuff":
@@ -570,6 +705,30 @@ func runCase(c caseSpec) caseResult {
 		res.nontriv = fmt.Sprintf("%d|%d|%s|%v|%d", c.M, c.callers, strings.Join(c.script, ","), ks, c.closeAt)
 	}
 	return res
+}
+
+func sameBytes(a, b [][]byte) bool {
+	if len(a) != len(b) {
+		return false
+	}
+	for i := range a {
+		if string(a[i]) != string(b[i]) {
+			return false
+		}
+	}
+	return true
+}
+
+func show(bs [][]byte) string {
+	var s []string
+	for _, b := range bs {
+		x := string(b)
+		if len(x) > 28 {
+			x = x[:28] + "…"
+		}
+		s = append(s, x)
+	}
+	return strings.Join(s, " / ")
 }
 
 func bucketN(n int) int {
@@ -669,8 +828,74 @@ func genScript(r *hlib.Rand, callers, per int) []string {
 	return s
 }
 
-func main() {
+// supervise runs the harness proper in a child process.  A Go fatal error in the code under test (unlock of an
+// unlocked mutex, concurrent map access, …) cannot be recovered in-process; when the child dies, the connections
+// that were running at that moment are reported as oracle failures with their case lines as the replay.
+func supervise() int {
+	cmd := exec.Command(os.Args[0], os.Args[1:]...)
+	cmd.Env = append(os.Environ(), "C14_CHILD=1")
+	var stderr bytes.Buffer
+	cmd.Stdout, cmd.Stderr = os.Stdout, &stderr
+	err := cmd.Run()
+	if err == nil {
+		os.Stderr.Write(stderr.Bytes())
+		return 0
+	}
+	msg := stderr.String()
+	if len(msg) > 6000 {
+		msg = msg[:6000]
+	}
+	os.Stderr.WriteString(msg)
+	first := strings.SplitN(strings.TrimSpace(msg), "\n", 2)[0]
+	out := ""
+	for i, a := range os.Args {
+		if (a == "-out" || a == "--out") && i+1 < len(os.Args) {
+			out = os.Args[i+1]
+		}
+	}
+	jb, _ := os.ReadFile(filepath.Join(out, "journal.txt"))
+	started := map[string]string{}
+	var order []string
+	for _, l := range strings.Split(string(jb), "\n") {
+		f := strings.SplitN(l, " ", 3)
+		switch {
+		case len(f) == 3 && f[0] == "S":
+			started[f[1]] = f[2]
+			order = append(order, f[1])
+		case len(f) >= 2 && f[0] == "E":
+			delete(started, f[1])
+		}
+	}
+	if len(started) == 0 {
+		return 2
+	}
 	run := hlib.Start("C14")
+	seen := map[string]bool{}
+	for _, id := range order {
+		if l, ok := started[id]; ok && !seen[l] {
+			seen[l] = true
+			run.Case("crashed while running: " + l)
+			run.IOFail("c14-process-crash", l, "the process died while this connection was running: "+first)
+		}
+	}
+	run.Finish("process crashed; the connections running at that moment are listed")
+	return 0
+}
+
+func main() {
+	if os.Getenv("C14_CHILD") == "" {
+		os.Exit(supervise())
+	}
+	run := hlib.Start("C14")
+	journal, _ := os.OpenFile(filepath.Join(run.OutDir, "journal.txt"), os.O_CREATE|os.O_TRUNC|os.O_WRONLY|os.O_APPEND, 0o644)
+	var jmu sync.Mutex
+	note := func(s string) {
+		if journal != nil {
+			jmu.Lock()
+			journal.WriteString(s)
+			jmu.Unlock()
+		}
+	}
 	sarama.PanicHandler = func(v interface{}) {
 		atomic.AddInt32(&panics, 1)
 		run.IOFail("panic", "(see case lines)", fmt.Sprint(v))
@@ -678,9 +903,17 @@ func main() {
 	rng := hlib.NewRand(run.Seed)
 	var cases []caseSpec
 	if rl := run.ReplayLines(); rl != nil {
+		// a replayed case is re-run 40 times: which interleaving (and which buffer reuse) a run sees is not
+		// determined by the case line
 		for _, l := range rl {
 			if c, ok := parseCase(l); ok {
-				cases = append(cases, c)
+				n := c.rep
+				if n <= 0 {
+					n = 40
+				}
+				for k := 0; k < n; k++ {
+					cases = append(cases, c)
+				}
 			}
 		}
 	} else {
@@ -709,7 +942,28 @@ func main() {
 				add(caseSpec{M: m, rtMs: 2000, tr: "mem", callers: callers, per: 1, closeAt: -1, script: []string{"hold"}})
 			}
 		}
+		// slow-but-alive family: every answer comes just under Net.ReadTimeout while several calls are pipelined
+		// (a caller waits for a multiple of the read timeout although no single read is late), then a fault of
+		// each kind, then later calls, Connected() and Close()
+		slowCase := func(fault string) caseSpec {
+			c := caseSpec{closeAt: -1, tr: "mem", M: rng.Pick(5, 5, 5, 2), callers: rng.Range(4, 8), per: rng.Range(2, 3),
+				rtMs: rng.Pick(160, 200, 240)}
+			for k := rng.Range(3, 5); k > 0; k-- {
+				c.script = append(c.script, fmt.Sprintf("slow%d", rng.Range(70, 85)))
+			}
+			c.script = append(c.script, fault, "ok", "ok")
+			c.cid0 = int32(rng.Intn(1000))
+			return c
+		}
+		slowFaults := []string{"silence", "trunch3s", "truncb2c", "close", "wrongcid1", "swap", "big", "truncb1s", "trunch5c", "ok"}
+		for i := 0; i < 8 && id < n; i++ {
+			add(slowCase(slowFaults[i]))
+		}
 		for id < n {
+			if rng.Chance(1, 10) {
+				add(slowCase(slowFaults[rng.Intn(len(slowFaults))]))
+				continue
+			}
 			c := caseSpec{closeAt: -1}
 			c.M = rng.Pick(1, 1, 2, 2, 5)
 			c.callers = rng.Pick(1, 2, 2, 3, 3, 4, 5, 6, 8, 12, 16)
@@ -755,7 +1009,10 @@ func main() {
 				if i >= len(cases) {
 					return
 				}
-				out[i] = runCase(cases[i])
+				c := cases[i]
+				note(fmt.Sprintf("S %d case %d M=%d cid0=%d %s\n", i, c.id, c.M, c.cid0, c.params()))
+				out[i] = runCase(c)
+				note(fmt.Sprintf("E %d\n", i))
 			}
 		}()
 	}
